@@ -41,10 +41,89 @@ def bits_term(r):
     return "(%d%%nat, %s, %d%%nat, %d, %s)" % (nkeys, cbytes(a["bits"]), nw, r["st"], cbool(r["res"] == "true"))
 
 
+ALLOC_FACTOR, ALLOC_CONST = 64, 32768   # bytes allocated by one decode <= 64 * len(input) + 32 KiB
+
+
+def run_p2p(ck, binp, scale, replay_in=None):
+    """Raw bytes on the request/response streams of a loopback MessageProtocol. The receiver lives in the harness process: a
+    panic in its stream goroutine kills the process; the cases still pending then are the violating inputs."""
+    import subprocess
+    outp = os.path.join(ck.work, "p2p.jsonl")
+    if os.path.exists(outp):
+        os.remove(outp)
+    env = dict(core.GOENV, VERIF_SEED=str(ck.seed), VERIF_TIER=ck.tier)
+    args = [binp, "-out", outp, "-parts", "p2p", "-net", str(scale)]
+    if replay_in:
+        args += ["-in", replay_in]
+    try:
+        p = subprocess.run(args, cwd=ck.work, env=env, stdout=subprocess.DEVNULL, stderr=subprocess.PIPE, timeout=900, text=True)
+        rc, err = p.returncode, p.stderr[-1500:]
+    except subprocess.TimeoutExpired:
+        rc, err = -1, "timeout after 900 s"
+    pending, done, ended, recent = {}, 0, False, []
+    if os.path.exists(outp):
+        for line in open(outp):
+            line = line.strip()
+            if not line:
+                continue
+            try:
+                r = json.loads(line)
+            except ValueError:
+                continue
+            if r["phase"] == "pending":
+                pending[r["i"]] = r
+            elif r["phase"] == "done":
+                recent = (recent + [r])[-3:]
+                pending.pop(r["i"], None)
+                done += 1
+                ck.count()
+                ck.nontrivial(("p", r["resp"], r["gen"], r.get("send", ""), r["d"][:32], len(r["d"])))
+            elif r["phase"] == "end":
+                ended = True
+    ck.extra["p2p_stream_cases"] = done
+    if rc != 0 or not ended:
+        if pending:
+            for i, r in sorted(pending.items())[-1:]:
+                # stream handlers run asynchronously: the culprit is the pending message or one of the few sent just before
+                r = dict(r, also=[dict(x, phase="pending") for x in recent])
+                f = dict(kind="input", key="c09:p:%s:crash" % ("onResponse" if r["resp"] else "onRequest"), case=r,
+                         what="p2p MessageProtocol: the node process died (exit %s) while handling raw stream bytes (one of) %s: %s" % (
+                             rc, ", ".join([x["d"][:120] for x in recent] + [r["d"][:120]]), err[-400:]))
+                f["spec_violated"] = True
+                f["theorem_or_correspondence"] = "C09 oracle: p2p stream handlers survive any byte string"
+                ck.failures.append(f)
+        else:
+            ck.fail_obligation("harness-run:p2p", "p2p stream driver exited %s without a pending case: %s" % (rc, err))
+
+
 def evaluate(ck, recs, sample_cap):
     # 1. the property oracle on every record: no recovered panic, no timeout
     for r in recs:
         ck.count()
+        if r["k"] == "n":
+            ck.nontrivial(("n", r["f"], r["gen"], r["res"], r["d"][:32], len(r["d"])))
+            if r["st"] in (2, 3):
+                cls = "times out" if r["st"] == 3 else "panics"
+                f = dict(kind="input", key="c09:n:%s:%s:%s" % (r["f"], cls.split()[0], site(r)), case=r,
+                         what="%s %s on untrusted input (%s): %s" % (r["f"], cls, r.get("panic"), json.dumps(r)[:500]))
+                f["spec_violated"] = True
+                f["theorem_or_correspondence"] = "C09 oracle: outcome class of %s must be a verdict/error" % r["f"]
+                ck.failures.append(f)
+            continue
+        if r["k"] == "m":
+            ck.nontrivial(("m", r["f"], r["claimed"]))
+            bound = ALLOC_FACTOR * r["len"] + ALLOC_CONST
+            ck.extra["max_alloc_per_call"] = max(ck.extra.get("max_alloc_per_call", 0), r["alloc"])
+            if r["st"] != 0 or r["alloc"] > bound:
+                f = dict(kind="input", key="c09:m:%s:%s" % (r["f"], "panics" if r["st"] else "alloc"), case=r,
+                         what="%s on a %d-byte input claiming a length of %s %s" % (
+                             r["f"], r["len"], r["claimed"],
+                             "panics (%s)" % r.get("panic") if r["st"] else
+                             "allocates %d bytes > %d*len+%d: memory not bounded by the input size" % (r["alloc"], ALLOC_FACTOR, ALLOC_CONST)))
+                f["spec_violated"] = True
+                f["theorem_or_correspondence"] = "C09_read_bytes_alloc_bounded (allocation <= remaining input) vs runtime.MemStats.TotalAlloc"
+                ck.failures.append(f)
+            continue
         if r["k"] == "s":
             bad = r["st"] in (2, 3) or r["sst"] in (2, 3)
             name = r["name"]
@@ -114,14 +193,15 @@ def run(ck):
                 recs += got
     ck.extra["corpus_cases"] = len(recs)
     if ck.tier == "quick":
-        args, cap = ["-exh", "2", "-vals", "1", "-mut", "4", "-ver", "2"], 1500
+        args, cap, net = ["-exh", "2", "-vals", "1", "-mut", "4", "-ver", "2", "-net", "1"], 1500, 1
     else:
-        args, cap = ["-exh", "3", "-vals", "4", "-mut", "20", "-ver", "12"], 20000
+        args, cap, net = ["-exh", "3", "-vals", "4", "-mut", "20", "-ver", "12", "-net", "6"], 20000, 4
     got = ck.run_harness(binp, args, timeout=1500)
     if got is None:
         return
     recs += got
     evaluate(ck, recs, cap)
+    run_p2p(ck, binp, net)
     for r in [x for x in recs if x["k"] == "s" and x["gen"] == "trunc"][:2] + [x for x in recs if x["k"] == "v"][:2]:
         ck.sample(r)
     ck.cov["rule"] = (
@@ -132,7 +212,15 @@ def run(ck):
         "NewBlock/NewBlockHeader/NewTransaction/NewBlockAsset/Block.Decode+Init+Validate/SingleCommit on the same classes, BLS "
         "aggregate verification with every bitmap length 0..ceil(n/8)+2 for n in {0,1,7,8,9,16,17} and wrong weight counts, "
         "garbage keys/signatures of boundary lengths, smt.Verify / rmt.VerifyProof / CalculateRootFromUpdateData on random "
-        "malformed proofs (decoded from bytes), CalculateRootFromAppendPath with short paths. Oracle on every case: outcome "
+        "malformed proofs (decoded from bytes), CalculateRootFromAppendPath with short paths. Network-facing code on a real "
+        "Executer (6-block chain, 4 validators): blockValidator -> onBlockReceived -> fork-choice process, verifyBlock, "
+        "verifyAggregateCommit, singleCommitValidator, transactionValidator -> onTransactionAnnouncement, txpool getTransactions, "
+        "sync getLastBlock / getHighestCommonBlock / getBlocksFromID handlers, Ed25519 / block signature verification: valid message, "
+        "every truncation, hostile varints, mutations, wrong-size IDs / addresses / keys / signatures / roots (re-signed too), "
+        "aggregate commits of every bitmap/signature size and boundary heights, empty and over-long lists; raw bytes on the "
+        "request/response streams of a loopback libp2p MessageProtocol (process death = violation). Memory: TotalAlloc delta of "
+        "Decode/DecodeStrict on a length prefix claiming 2^20..2^64-1 bytes for every length-delimited field of every struct, "
+        "bound 64*len+32KiB. Oracle on every case: outcome "
         "class in {ok, error}; model agreement evaluated in Coq on a deterministic sample. Distinct = by (entry point, generator, "
         "outcome and error class, input length / arguments).")
     ck.cov["exhaustive"] = True
@@ -152,6 +240,12 @@ def replay(ck, path):
         run(ck)
         return ck.finish(LEVEL)
     binp = ck.go_build("c09")
+    if binp and case.get("k") == "p":
+        inp = os.path.join(ck.work, "replay_in.jsonl")
+        lines = [dict(x) for x in case.get("also", [])] + [{k: v for k, v in case.items() if k != "also"}]
+        open(inp, "w").write("".join(json.dumps(x) + "\n" for x in lines))
+        run_p2p(ck, binp, 1, replay_in=inp)
+        return ck.finish(LEVEL)
     if binp:
         inp = os.path.join(ck.work, "replay_in.jsonl")
         open(inp, "w").write(json.dumps(case) + "\n")
